@@ -10,6 +10,7 @@ import (
 	"fmt"
 	"io"
 	"log"
+	"math"
 	"strconv"
 	"sync"
 	"time"
@@ -246,6 +247,10 @@ func (tdsChan *Channel) handleSpecialPackage(pkg Package) (bool, error) {
 				if err != nil {
 					return false, fmt.Errorf("error parsing new packet size '%s' to int: %w",
 						member.NewValue, err)
+				}
+				if packSize <= PacketHeaderSize || packSize > math.MaxUint16 {
+					return false, fmt.Errorf("new packet size %d is not between %d and %d",
+						packSize, PacketHeaderSize+1, math.MaxUint16)
 				}
 				tdsChan.tdsConn.packetSize = packSize
 			}
